@@ -25,6 +25,7 @@ type PropConfig struct {
 	Structural  []string `json:"structural"`  // structural checks
 	Assumptions []string `json:"assumptions"` // standing assumptions for the evidence
 	NotDecided  []string `json:"not_decided"`
+	Validations []string `json:"validations"` // groups of /verif/bin/validate run in the thorough tier (assumed contracts vs real dependencies)
 	Witness     string   `json:"witness"` // witness finder run only after an obligation failed, e.g. "parseprobe C08 4"
 }
 
@@ -286,7 +287,7 @@ func cmdCheck(args []string) {
 	}
 	// witness finder: only after an obligation has failed, look for a real failing input
 	witnessInput, witnessMsg, witnessCmd := "", "", ""
-	if cfg.Witness != "" && len(failed) > 0 {
+	if cfg.Witness != "" && len(failed) > 0 && os.Getenv("SPOKVC_SELFTEST") == "" {
 		witnessInput, witnessMsg, witnessCmd = runWitness(id, cfg.Witness)
 	}
 	for _, o := range failed {
@@ -332,6 +333,50 @@ func cmdCheck(args []string) {
 			violations++
 			p := writeReplay(id, "structural-"+r.Name, map[string]interface{}{"property": id, "obligation": "structural/" + r.Name, "reason": r.Detail, "meaning": "a structural side condition checked on the SSA of the working tree does not hold"})
 			lines = append(lines, fmt.Sprintf("VIOLATION property=%s replay=%s no-failing-input-found", id, p))
+		}
+	}
+	// thorough tier: the assumed contracts this property rests on are exercised against the real
+	// dependencies (bounded unless the group's domain is finite; labelled as such)
+	var validations []interface{}
+	if tier == "thorough" && len(cfg.Validations) > 0 {
+		vctx, vcancel := context.WithTimeout(context.Background(), 15*time.Minute)
+		out, _ := exec.CommandContext(vctx, filepath.Join(verifDir, "bin", "validate"), cfg.Validations...).CombinedOutput()
+		vcancel()
+		seenG := map[string]bool{}
+		for _, l := range strings.Split(string(out), "\n") {
+			if !strings.HasPrefix(l, "VALIDATE ") {
+				continue
+			}
+			fields := map[string]string{}
+			rest := strings.TrimPrefix(l, "VALIDATE ")
+			first := ""
+			if i := strings.Index(rest, " first="); i >= 0 {
+				first = rest[i+len(" first="):]
+				rest = rest[:i]
+			}
+			for _, kv := range strings.Fields(rest) {
+				if i := strings.Index(kv, "="); i > 0 {
+					fields[kv[:i]] = kv[i+1:]
+				}
+			}
+			seenG[fields["group"]] = true
+			kind := "bounded sample"
+			if fields["complete"] == "true" {
+				kind = "complete sweep of a finite domain"
+			}
+			validations = append(validations, map[string]string{"group": fields["group"], "cases": fields["cases"], "failures": fields["failures"], "kind": kind, "first_failure": first})
+			if fields["failures"] != "0" {
+				violations++
+				p := writeReplay(id, "validation-"+fields["group"], map[string]interface{}{"property": id, "obligation": "validation/" + fields["group"], "reason": first, "meaning": "an ASSUMED contract the proof of this property rests on is false for the real dependency (validation group " + fields["group"] + ")", "replay_cmd": "/verif/bin/validate " + fields["group"]})
+				lines = append(lines, fmt.Sprintf("VIOLATION property=%s replay=%s no-failing-input-found", id, p))
+			}
+		}
+		for _, gname := range cfg.Validations {
+			if !seenG[gname] {
+				violations++
+				p := writeReplay(id, "validation-"+gname, map[string]interface{}{"property": id, "obligation": "validation/" + gname, "reason": "the validation group did not report", "output": string(out)})
+				lines = append(lines, fmt.Sprintf("VIOLATION property=%s replay=%s no-failing-input-found", id, p))
+			}
 		}
 	}
 	// evidence
@@ -386,6 +431,9 @@ func cmdCheck(args []string) {
 		"structural_ok":            nStructOK,
 		"all_solvers_must_agree":   all,
 	}
+	if len(validations) > 0 {
+		cov["assumed_contract_validations"] = validations
+	}
 	if level == "other" {
 		cov["explanation"] = cfg.Note
 	}
@@ -395,7 +443,9 @@ func cmdCheck(args []string) {
 	}
 	os.MkdirAll(filepath.Join(verifDir, "evidence"), 0o755)
 	out, _ := json.MarshalIndent(ev, "", " ")
-	os.WriteFile(filepath.Join(verifDir, "evidence", id+".json"), out, 0o644)
+	if os.Getenv("SPOKVC_SELFTEST") == "" { // the must-fail corpus runs on deliberately broken trees: not evidence
+		os.WriteFile(filepath.Join(verifDir, "evidence", id+".json"), out, 0o644)
+	}
 	for _, l := range lines {
 		fmt.Println(l)
 	}
